@@ -18,6 +18,7 @@ from .. import gen, runner, tracecheck
 from ..common import Check, MachineryFailure, scratch_root
 
 LEVEL = "model_checking"
+RULE = ('cases = Gen_Cli.tla argument vectors (tokens x environment) through main() and the console script; every vector is non-trivial (each has its own predicted exit status and effect); distinct = distinct (tokens, env)')
 
 TOKENS = [
     ("dir", "ok", ["{dir}"]),
